@@ -1,4 +1,5 @@
 from vcommon import Suite
+import coqreplay
 
 SPEC = {
     "id": "C09",
@@ -7,7 +8,7 @@ SPEC = {
     "suites": [
         Suite(name="span", harness="vh_c09", runner="c09",
               model_deps=["theories/Model/Span.vo"],
-              quick_n=1500, thorough_n=40000,
+              quick_n=1500, thorough_n=40000, coq_replay=coqreplay.span,
               rule="cases: real counterSpan (50%), real rotate1 metadata+file name (20%), increments around a second "
                    "rotate1 (20%), real uploader run with start at end-1ns/end/end+1ns/... (10%); times over 0001..9998 "
                    "with month ends, leap days, midnight+-1s; weekends file valid/missing/empty/malformed. "
